@@ -13,11 +13,22 @@ Binding C: every history of 4 actions (exhaustive) and sampled histories of 12 a
 Binding A: names (TLC-exported Sanitise vectors -> sanitize_molecule_string and names of discovered files);
       one abstract table written in every container with the unit factors exported by TLC, loaded through
       the real caches and compared with the in-memory fixture and the table itself.
+Declared units (spec/OpacityFiles.tla unit table = base unit -> exact rational factor x SI prefix, spec/MC_OpacityUnits.tla):
+      every container that declares its pressure unit (HDF5 cross-sections, HDF5 k-tables) x every prefixed unit astropy
+      accepts x storage of the attribute (str / bytes) x pressure grid; the file stores the specification's numbers and
+      must load to the SI grid and the in-memory table's cross-sections.
+HITRAN files (spec/HitranCia.tla, MC_HitranCia.tla): a .cia file is a sequence of distinct (band, temperature) blocks
+      (actions Write / CloseFile: any order, interleaved bands, gaps); the physical table is a function of the block SET
+      (coefficient vectors, exact rationals).  TLC checks a transcription of the reading algorithm against it
+      (refuted without the sort before filling, with running bounds, with held edges), exports every file over
+      2 bands x 3 temperatures and simulates files over 3 bands x 4 temperatures; each is written as HITRAN text and
+      as a pickle of the physical table, loaded through CIACache and compared at nodes, between nodes and off-grid.
 """
 import os
 import random
 import shutil
 import tempfile
+import zlib
 from fractions import Fraction
 
 import numpy as np
@@ -400,7 +411,8 @@ def _run_units(ctx, sb, uvecs):
             continue
         si = np.array([float(fac(p)) for p in v['si']])
         stored = [float(tri(p)) for p in v['stored']]
-        mode = ['linear', 'exp'][(i // 2) % 2]
+        h = zlib.crc32(repr((v['cont'], name, v['attr'], v['gid'])).encode())     # stable choice of the incidental settings (replayable)
+        mode = ['linear', 'exp'][h % 2]
         vec = dict(v, kind='unit', mode=mode, seed=ctx.seed)
         d = sb.mkdir('unit_%d' % i)
         sb.reset()
@@ -408,7 +420,7 @@ def _run_units(ctx, sb, uvecs):
         if v['cont'] == 'hdf5-xsec':
             cls = 'xsec:hdf5:' + name + suffix
             fx.write_hdf5_opacity(d, 'H2O_verif', 'H2O', WN, TEMPS, si, x, unit=name, stored_p=stored, unit_as=v['attr'],
-                                  ext=['.h5', '.hdf5'][i % 2], name_as=['bytes', 'array', 'str'][i % 3])
+                                  ext=['.h5', '.hdf5'][(h // 2) % 2], name_as=['bytes', 'array', 'str'][(h // 4) % 3])
             ref = GridOpacity('H2O', WN, TEMPS, si, x, mode)
             table = x
             OpacityCache().set_opacity_path(d)
@@ -417,7 +429,7 @@ def _run_units(ctx, sb, uvecs):
         elif v['cont'] == 'hdf5-ktable':
             cls = 'ktable-hdf5:' + name + suffix
             fx.write_hdf5_ktable(d, 'H2O_R100.ktable', WN, TEMPS, si, kc, WEIGHTS, unit=name, stored_p=stored, unit_as=v['attr'],
-                                 ext=['.h5', '.hdf5'][i % 2])
+                                 ext=['.h5', '.hdf5'][(h // 2) % 2])
             ref = GridKTable('H2O', WN, TEMPS, si, kc, WEIGHTS, mode)
             table = kc
             sb.gc['xsec_interpolation'] = mode
@@ -890,17 +902,19 @@ def run(ctx):
              ('nonvacuous-hit', 'MC_OpacityCache', 'MC_OpacityCache_nonvac2.cfg', dict(workers=2), 'NeverHit'),
              ('export-names', 'MC_OpacityName', 'EX_OpacityName.cfg', dict(workers=1), None),
              # HITRAN files as sets of (band, temperature) blocks in any order; the reading algorithm against the physical table
-             ('hitran-design', 'MC_HitranCia', 'MC_HitranCia_%s.cfg' % t, dict(workers=2 if q else 8), None),
+             # (the export config carries the invariants: design check and export of the 2 bands x 3 temperatures model in one run)
+             ('hitran-design', 'MC_HitranCia', 'EX_HitranCia_quick.cfg', dict(workers=1), None),
              ('refuted-hitran-no-sort-before-fill', 'MC_HitranCia', 'MC_HitranCia_nosort_refuted.cfg', dict(workers=1), 'ReaderMatchesTable'),
              ('refuted-hitran-running-bounds', 'MC_HitranCia', 'MC_HitranCia_runningbounds_refuted.cfg', dict(workers=1), 'ReaderMatchesTable'),
              ('refuted-hitran-hold-outside', 'MC_HitranCia', 'MC_HitranCia_hold_refuted.cfg', dict(workers=1), 'ReaderMatchesTable'),
              ('nonvacuous-hitran-unsorted-band', 'MC_HitranCia', 'MC_HitranCia_nonvac1.cfg', dict(workers=1), 'NeverUnsortedBand'),
              ('nonvacuous-hitran-interior-gap', 'MC_HitranCia', 'MC_HitranCia_nonvac2.cfg', dict(workers=1), 'NeverInteriorGap'),
-             ('export-hitran', 'MC_HitranCia', 'EX_HitranCia_quick.cfg', dict(workers=1), None),
              ('simulate-hitran', 'MC_HitranCia', 'SIM_HitranCia.cfg', dict(workers=1, simulate='num=%d' % (150 if q else 2500), depth=14, seed=ctx.seed + 1), None),
              # declared pressure units: container x prefixed unit x attribute storage (x pressure grid)
              ('export-units', 'MC_OpacityUnits', 'EX_OpacityUnits_%s.cfg' % t, dict(workers=1), None),
              ('nonvacuous-units', 'MC_OpacityUnits', 'MC_OpacityUnits_nonvac.cfg', dict(workers=1), 'AllBar')]
+    if not q:
+        jobs.append(('hitran-design-2x4', 'MC_HitranCia', 'MC_HitranCia_thorough.cfg', dict(workers=8), None))
     nsim = 120 if q else 1500
     for k in ('xsec', 'ktable', 'cia'):
         hi = 'HI5_OpacityCache_%s.cfg' % k if (not q and k != 'xsec') else 'HI_OpacityCache_%s.cfg' % k
@@ -937,7 +951,7 @@ def run(ctx):
         if results['hitran-design'].action_cov.get(a, (0, 0))[1] == 0:
             raise Machinery('vacuous: action %s never taken in the HITRAN file model' % a)
     ctx.exhaustive = True
-    hfiles = results['export-hitran'].tagged('CIA')
+    hfiles = results['hitran-design'].tagged('CIA')
     hsim = results['simulate-hitran'].tagged('CIA')
     uvecs = results['export-units'].tagged('UVEC')
     if len(hfiles) < 1900 or not hsim or len(uvecs) < 500:
